@@ -124,7 +124,7 @@ def _fw(names):
 
 _FW_C02 = _fw(['nodes', 'interactions', 'degree', 'neighbors', 'number_of_nodes', 'number_of_interactions', 'all_neighbors'])
 _FW_M = [('contracts.forward', 'Forwarder', (cls, f, None, True), {}) for (cls, f) in (('DynGraph', 'interactions'), ('DynDiGraph', 'interactions'),
-         ('DynDiGraph', 'in_interactions'), ('DynDiGraph', 'out_interactions'), ('DynGraph', 'order'))]
+         ('DynDiGraph', 'in_interactions'), ('DynDiGraph', 'out_interactions'), ('DynGraph', 'order'), ('DynDiGraph', 'has_successor'), ('DynDiGraph', 'has_predecessor'))]
 _FW_C02 = _FW_C02 + _FW_M
 PROOF_UNITS['C02'] = PROOF_UNITS['C02'] + _FW_C02
 PROOF_UNITS['C08'] = PROOF_UNITS['C08'] + _FW_C02
